@@ -211,6 +211,15 @@ func (m *Machine) callFunction(caller *frame, pos token.Pos, fn *ssa.Function, a
 }
 
 func (m *Machine) callSSA(caller *frame, pos token.Pos, fn *ssa.Function, args []Value, env []Value) Value {
+	if m.Conf.Merge != nil && m.inPath && !m.Conf.ConcreteSet && m.Conf.Merge[fn.String()] {
+		if res, ok := m.tryMerged(caller, pos, fn, args, env); ok {
+			return res
+		}
+	}
+	return m.callSSA2(caller, pos, fn, args, env)
+}
+
+func (m *Machine) callSSA2(caller *frame, pos token.Pos, fn *ssa.Function, args []Value, env []Value) Value {
 	if fn.Parent() == nil {
 		if in := m.W.intrinsic(fn); in != nil {
 			return in(m, caller, fn, args)
